@@ -646,6 +646,12 @@ func classifyConsumeLoop(h *ssa.BasicBlock, body map[*ssa.BasicBlock]bool, input
 					if isRangeIndexOver(init, input) {
 						return "", "countdown `> 0` from the scan index reads one byte fewer than the match"
 					}
+					// for n := i + 1; n > 0; n-- with i the scan index
+					if sum, isSum := init.(*ssa.BinOp); isSum && sum.Op == token.ADD {
+						if one, isK := constInt(sum.Y); isK && one == 1 && isRangeIndexOver(sum.X, input) {
+							return "countdown", "reads (scan index + 1) bytes: the whole matched sequence"
+						}
+					}
 					// for n := len(P); n > 0; n-- under HasPrefix(input, P)
 					if pfx := lenArg(init); pfx != nil && underHasPrefix(pfx) {
 						return "prefix", "counts len(P) down to zero under HasPrefix(input, P)"
